@@ -56,6 +56,12 @@ func (fsm *FSM) sessionExpiration() time.Duration {
 	return fsm.sessionExpirationDur
 }
 
+func (fsm *FSM) setSessionExpiration(d time.Duration) {
+	fsm.sessionExpirationMu.Lock()
+	defer fsm.sessionExpirationMu.Unlock()
+	fsm.sessionExpirationDur = d
+}
+
 // sendMessages appends the specified batch of messages to the output,
 // marking them as a response to the incoming message with id 'id' and
 // associating them with session 'session'. IRC clients will
@@ -118,9 +124,12 @@ func (fsm *FSM) applyRobustMessage(msg *robust.Message, i *ircserver.IRCServer, 
 			defer i.ConfigMu.Unlock()
 			i.Config = newCfg
 			i.Config.Revision = msg.Revision
-			fsm.sessionExpirationMu.Lock()
-			defer fsm.sessionExpirationMu.Unlock()
-			fsm.sessionExpirationDur = time.Duration(i.Config.SessionExpiration)
+			if i == ircServer {
+				// Only the live server determines the expiration in force:
+				// Snapshot() also applies old config messages to a
+				// temporary server while compacting.
+				fsm.setSessionExpiration(time.Duration(i.Config.SessionExpiration))
+			}
 		}
 	}
 	return nil
@@ -470,6 +479,7 @@ func (fsm *FSM) decodeProtobuf(b *bufio.Reader) error {
 			if err != nil {
 				return err
 			}
+			fsm.setSessionExpiration(time.Duration(ircServer.Config.SessionExpiration))
 			log.Printf("storing RobustState as index %d\n", lastIncludedIndex)
 			fsm.lastSnapshotState[lastIncludedIndex] = state
 			continue
@@ -518,6 +528,7 @@ func (fsm *FSM) decodeJson(b *bufio.Reader) error {
 			if err != nil {
 				return err
 			}
+			fsm.setSessionExpiration(time.Duration(ircServer.Config.SessionExpiration))
 			log.Printf("storing RobustState as index %d\n", lastIncludedIndex)
 			fsm.lastSnapshotState[lastIncludedIndex] = state
 			continue
